@@ -62,8 +62,11 @@ def lean_batch_trace():
     calls_user = list(calls); calls.clear()
     br._run_pipeline((Rec(), invs), (namedtuple("UserSeqKey", ["user_id", "seq"])(USER, 7), test)); calls_composite = list(calls); calls.clear()
     br._run_pipeline((Rec(), invs), (namedtuple("ItemKey", ["item_id"])(99), test)); calls_nouser = list(calls); calls.clear()
+    # …and for a user whose test list is empty (it is still the test list: an empty list is a list)
+    empty = ItemList(item_ids=[])
+    br._run_pipeline((Rec(), invs), (UserIDKey(USER), empty)); calls_empty = list(calls); calls.clear()
     calls.extend(calls_user)
-    def call_lean(nodes, inputs):
+    def call_lean(nodes, inputs, test=test):
         ins = ", ".join(f"({q(k)}, {'Arg.user' if (k == 'query' and v == USER) else arg(v, test)})" for k, v in sorted(inputs.items()))
         return f"{{ nodes := [{', '.join(q(n_) for n_ in nodes)}], inputs := [{ins}] }}"
     # what batch.recommend registers for a given n
@@ -83,6 +86,7 @@ def lean_batch_trace():
             "/-- registered by `runner.recommend(n=0); runner.predict(); runner.score()` -/\ndef observedInvocations : List Inv :=\n  [" + ",\n   ".join(inv_lean(i) for i in invs) + "]\n\n"
             "/-- the `run_all` calls of `_run_pipeline` for one user key with those invocations -/\ndef observedCalls : List Call :=\n  [" + ",\n   ".join(call_lean(n_, i) for n_, i in calls) + "]\n\n"
             "/-- …for a key `(user_id, seq)` that carries more than the user -/\ndef observedCallsCompositeKey : List Call :=\n  [" + ",\n   ".join(call_lean(n_, i) for n_, i in calls_composite) + "]\n\n"
+            "/-- …for a user whose test list is empty -/\ndef observedCallsEmptyTest : List Call :=\n  [" + ",\n   ".join(call_lean(n_, i, empty) for n_, i in calls_empty) + "]\n\n"
             "/-- …and for a key without a user -/\ndef observedCallsNoUser : List Call :=\n  [" + ",\n   ".join(call_lean(n_, i) for n_, i in calls_nouser) + "]\n\n"
             f"/-- the output names the worker filed its results under -/\ndef observedOutputs : List String := [{', '.join(q(k) for k in result)}]\n\n"
             "/-- what `batch.recommend(pipe, users, n)` registers for n = None, 0, 3 -/\ndef observedForwarding : List (List Inv) :=\n  [" + ",\n   ".join("[" + ", ".join(inv_lean(i) for i in f) + "]" for f in fwd) + "]\n\nend LK.Gen.BatchTraceC12\n")
